@@ -98,6 +98,7 @@ func init() {
 			{Fn: "H_rethrow", Tier: "quick", Reach: []string{"end"}},
 			{Fn: "H_messages", Tier: "quick", Reach: []string{"end"}},
 			{Fn: "H_abnormal", Fuel: 30_000_000, Tier: "quick", Reach: []string{"end"}},
+			{Fn: "H_try_repeated", Fuel: 60_000_000, Tier: "quick", Reach: []string{"end"}},
 		},
 		Rule:        rule + "; try/catch/finally template inside a loop inside a function with selectors for how the try body (5), the handler (5) and finally (2) exit and which class is thrown (5, incl. a Go-level error), all 250 combinations by solver-driven case split; marker trace and return value compared with the 40-line reference model of B.3; H_catch_order: every thrown class x every ordered pair of catch clause types (first match in source order); H_same_object: the caught object is the thrown one; H_rethrow: every thrown class x every inner clause type, the caught object thrown again is matched by the enclosing try by its original class and keeps its message; H_catch_order: 5 thrown classes x ordered pairs of 8 clause types incl. interfaces implemented by the class / an ancestor / two levels up, handlers with a marker or EMPTY, with finally; H_messages: each object keeps the message it was constructed with (incl. a subclass whose constructor never calls the parent's); H_abnormal: a Go-level failure inside the try body and a throw leaving an included file",
 		Assumptions: []string{"a Go-level error (1 % 0) is a Throwable that also matches catch (Exception)"},
